@@ -107,8 +107,13 @@ def run_impl(case):
     if not ok:
         return {'ok': False, 'error': f'{type(res).__name__}: {res}'[:200]}
     sig_text = res.signature
-    kind = 1 if sig_text.startswith('BLsig') else (0 if sig_text.startswith('sig') else 9)
-    raw_sig = G.unb58('BLsig' if kind == 1 else 'sig', sig_text) if kind in (0, 1) else b''
+    # the property does not prescribe the base58 notation of the signature: curve-specific prefixes are decoded too
+    # (the model says generic 'sig' / 'BLsig', so a different prefix shows up as a correspondence difference only)
+    kind, raw_sig = 9, b''
+    for i, pfx in ((1, 'BLsig'), (2, 'edsig'), (3, 'spsig1'), (4, 'p2sig'), (0, 'sig')):
+        if sig_text.startswith(pfx):
+            kind, raw_sig = i, G.unb58(pfx, sig_text)
+            break
     ok2, payload = lib.call(res.binary_payload)
     ok3, h = lib.call(res.hash)
     return {'ok': True, 'message': seen.get('message'), 'generic': seen.get('generic'), 'signature': sig_text, 'kind': kind, 'raw_sig': raw_sig,
